@@ -288,6 +288,9 @@ def substringByChar (arrayAscii : Bool) (s : List Char) (start : Int) (len : Opt
 def lengthModel (s : List Char) : Nat := (encode s).length
 /-- `bit_length_impl`: `(offsets[i+1] - offsets[i]) * 8` -/
 def bitLengthModel (s : List Char) : Nat := (encode s).length * BIT_LENGTH_FACTOR
+/-- `bit_length` of `Utf8View` / `BinaryView`: `(*view as i32).wrapping_mul(8)` (the low 32 bits of
+a view are the length) -/
+def bitLengthModelView (s : List Char) : Nat := (encode s).length * BIT_LENGTH_FACTOR_VIEW
 /-- `concat_elements_bytes`: the two value slices appended -/
 def concatModel (a b : List Char) : List Nat := encode a ++ encode b
 
